@@ -60,6 +60,18 @@ def run_reader_case(ctx, case, tmpdir):
         cleanup()
     ctx.count("readers")
     ctx.count("kind_" + case["kind"])
+    second = None
+    if case.get("record"):
+        # a recording reader frames its replay exactly like the first pass
+        try:
+            reader.open()
+            reader.rewind()
+            second = [reader.read() for _ in range(len(got))]
+            reader.close()
+            ctx.count("second_passes_checked")
+        except Exception as exc:
+            ctx.violation("second-pass-raises:" + type(exc).__name__, {"case": cj, "exception": repr(exc)[:200]})
+            return
     ctx.count("reads", len(got))
     if case["hop"] not in (None, case["block"]):
         ctx.count("readers_with_overlap")
@@ -77,6 +89,10 @@ def run_reader_case(ctx, case, tmpdir):
             break
     ctx.case(repr(sorted(cj.items())), any(b is not None for b in got))
     ctx.count("nones_after_end_observed", sum(1 for b in got if b is None))
+    if second is not None and second != got:
+        bps_ = case["width"] * case["channels"]
+        ctx.violation("second-pass-blocks-differ-from-first-pass", {"case": cj, "first": [None if b is None else len(b) // bps_ for b in got][:20],
+                                                                     "second": [None if b is None else len(b) // bps_ for b in second][:20]})
     if not ok:
         vis, blocks = cands[0]
         # classify the first difference
@@ -106,17 +122,17 @@ def run_reader_case(ctx, case, tmpdir):
 
 def constructor_cases(ctx):
     data = bytes(40)
-    for rate in (8, 10, 100, 16000):
-        for block_dur in (1 / rate, 2 / rate, 0.5 / rate, 0.99 / rate, 1.5 / rate, 0.1):
+    for rate in (8, 10, 100, 16000, 48000, 44100):
+        for block_dur in (1 / rate, 2 / rate, 0.5 / rate, 0.99 / rate, 1.5 / rate, 0.1, 0.29, 0.57, 0.009, 0.35, 1001 / 16000, 0.9999999999 / rate):
             for hop_dur in (None, block_dur, block_dur / 2, block_dur * 2, block_dur + 1 / rate, block_dur + 0.5 / rate, block_dur * 1.01):
                 ctx.evaluations += 1
                 ctx.count("constructor_cases")
                 exp_err = None
-                if F.W.block_size(block_dur, rate) == 0 and F.W.block_size_ieee(block_dur, rate) == 0:
+                if F.W.block_size_ieee(block_dur, rate) == 0:
                     exp_err = "sub-sample block_dur"
                 elif hop_dur is not None and hop_dur > block_dur:
                     exp_err = "hop_dur > block_dur"
-                if hop_dur is not None and hop_dur < block_dur and F.W.block_size(hop_dur, rate) == 0:
+                if hop_dur is not None and hop_dur < block_dur and F.W.block_size_ieee(hop_dur, rate) == 0:
                     continue  # zero-sample hop: outside the statement
                 try:
                     AudioReader(data, block_dur=block_dur, hop_dur=hop_dur, sr=rate, sw=1, ch=1)
@@ -181,7 +197,7 @@ def replay(ctx, case):
 def inconclusive(merged, tier):
     c = merged["counters"]
     need = ["readers", "readers_with_overlap", "readers_with_max_read", "readers_on_empty_source", "nones_after_end_observed",
-            "constructor_errors_observed", "exhaustive_core_cases", "readers_hop_dur_below_block_dur_same_sample_count"] + ["kind_" + k for k in RC.SOURCE_KINDS]
+            "constructor_errors_observed", "exhaustive_core_cases", "readers_hop_dur_below_block_dur_same_sample_count", "second_passes_checked"] + ["kind_" + k for k in RC.SOURCE_KINDS]
     return [f"monitor never observed {k}" for k in need if c.get(k, 0) == 0]
 
 
